@@ -51,7 +51,9 @@ def score_check(ctx):
         if pid in ('C04', 'C11', 'C12'):
             run('sweep40', r['out'], 'v4 sweep of all 15,116,544 effective classes', n=stripe)
         if pid in ('C04', 'C10', 'C11'):
-            run('lift40', r['out'], 'v4 realisations (Modified / undefined / supplemental metrics)', n=K)
+            run('lift40', r['out'], 'v4 realisations (Modified / undefined / supplemental metrics, pairs, neighbour sequences)', n=K)
+        if pid == 'C12':
+            run('lift40', r['out'], 'v4 severity steps on realisations, after scoring a neighbour', n=K)
         if thorough and pid in ('C04', 'C12'):
             # the monolithic definition on all classes = the composed tables; monotone along every severity step
             ctx.tlc('MC_Score40', CFG40C, name='MC_Score40_classes', timeout=7000)
@@ -64,6 +66,14 @@ def score_check(ctx):
     if pid in ('C05', 'C11', 'C12'):
         r = tlc20(ctx)
         run('sweep20', r['out'], 'v2.0 sweep of all 139,968,000 assignments', n=stripe)
+        if pid == 'C05':
+            run('lift20', r['out'], 'v2.0 vectors scored right after a neighbouring vector', n=K)
+    if pid == 'C11':
+        # every object reached by the API histories of MC_Object (also the ones the model does not predict)
+        from . import objfam
+        ro, so = objfam.obj_edges(ctx, 'C11')
+        viol.extend(so['violations'])
+        cov.setdefault('compared', {})['scores of objects reached by Set/ParseVector histories'] = so['compared']
     cov['traces_validated_against_impl'] = cov['evaluations']
     cov['exhaustive'] = pid in ('C03', 'C04', 'C05', 'C11', 'C12')
     cov['rule'] = ('every effective class of the version(s) is enumerated on the real code and compared with the table composition of the '
